@@ -261,6 +261,9 @@ def _matrix_inverse_root_eigen(
 
     if enhance_stability:
         L += -torch.minimum(lambda_min - epsilon, torch.as_tensor(0.0))
+        # Mathematically, all eigenvalues are now at least epsilon; enforce this numerically as well because
+        # epsilon is absorbed in floating point when the minimum eigenvalue is negative and |lambda_min| >> epsilon.
+        L.clamp_(min=epsilon)
     else:
         L += -torch.minimum(lambda_min, torch.as_tensor(0.0))
         # and add the epsilon
